@@ -38,7 +38,7 @@ type hookConn struct {
 	mu      sync.Mutex
 	inject  []byte // delivered to the client before anything the peer sends
 	written int
-	failAt  int // absolute offset in the written stream at which Write fails; <0: never
+	failAt  int           // absolute offset in the written stream at which Write fails; <0: never
 	tap     *bytes.Buffer // when set: everything the client writes
 }
 
